@@ -121,7 +121,71 @@ impl H {
             H::LD(h) => format!("{}", h),
         }
     }
+    /// The text plus a digest of every other way the library renders the
+    /// object as a string: `Display` with width / fill / precision flags, the
+    /// inherent `to_string()`, `store_into_bytes()` into exact, larger and too
+    /// small buffers, `len_in_str()`, the dual types' `to_raw_form_string()` /
+    /// `to_normalized_string()`.  Used in portable event lines, so that a
+    /// rendering that differs in one build configuration only is seen by C14
+    /// (only call on objects that passed validity).
+    pub fn forms(&self) -> String {
+        fn flags<T: core::fmt::Display>(h: &T) -> String {
+            format!("{:>90}|{:<7}|{:.12}|{:^75.20}|{:*<3}|{:#}", h, h, h, h, h, h)
+        }
+        let mut all = String::new();
+        macro_rules! plain_forms {
+            ($h:expr) => {{
+                let h = $h;
+                all.push_str(&flags(h));
+                let n = h.len_in_str();
+                all.push_str(&format!("|len={}", n));
+                let mut exact = vec![0x2au8; n];
+                let r = h.store_into_bytes(&mut exact);
+                all.push_str(&format!("|exact={:?}:{}", r.ok(), String::from_utf8_lossy(&exact)));
+                let mut big = vec![0x2au8; n + 5];
+                let r = h.store_into_bytes(&mut big);
+                all.push_str(&format!("|big={:?}:{}", r.ok(), String::from_utf8_lossy(&big)));
+                if n > 0 {
+                    let mut small = vec![0x2au8; n - 1];
+                    let r = h.store_into_bytes(&mut small);
+                    all.push_str(&format!("|small={}:{}", r.is_err(), String::from_utf8_lossy(&small)));
+                }
+            }};
+        }
+        macro_rules! dual_forms {
+            ($h:expr) => {{
+                let h = $h;
+                all.push_str(&flags(h));
+            }};
+        }
+        match self {
+            H::R(h) => plain_forms!(h),
+            H::LR(h) => plain_forms!(h),
+            H::N(h) => plain_forms!(h),
+            H::LN(h) => plain_forms!(h),
+            H::D(h) => dual_forms!(h),
+            H::LD(h) => dual_forms!(h),
+        }
+        format!("{} ~{:08x}", self.text(), crate::core::fnv64_of(all.as_bytes()) as u32)
+    }
 }
+
+/// The renderings that need an allocator (`to_string()` and the dual types'
+/// `to_raw_form_string()` / `to_normalized_string()`): a std-only line.
+#[cfg(feature = "std-easy")]
+fn log_alloc_forms(cx: &mut Ctx, slot: usize, h: &H) {
+    let s = match h {
+        H::R(h) => h.to_string(),
+        H::LR(h) => h.to_string(),
+        H::N(h) => h.to_string(),
+        H::LN(h) => h.to_string(),
+        H::D(h) => format!("{}|{}", h.to_raw_form_string(), h.to_normalized_string()),
+        H::LD(h) => format!("{}|{}", h.to_raw_form_string(), h.to_normalized_string()),
+    };
+    cx.ev_std(format_args!("strings s{} {}", slot, s));
+}
+#[cfg(not(feature = "std-easy"))]
+fn log_alloc_forms(_cx: &mut Ctx, _slot: usize, _h: &H) {}
 
 /// What the public, invariant-free accessors say about a plain object.
 #[derive(Clone, Debug, PartialEq)]
@@ -712,7 +776,8 @@ fn gen_step(cx: &mut Ctx, st: &mut State, d: usize, bytes: &[u8], variant: u8) {
             if settle(cx, st, d, "generate") {
                 st.mdl[d] = mdl_of(&h);
                 dirty_probe(cx, &before, &st.mdl[d].c);
-                cx.ev(true, format_args!("generate s{} {} v{} -> {}", d, abr(bytes), variant % 3, h.text()));
+                cx.ev(true, format_args!("generate s{} {} v{} -> {}", d, abr(bytes), variant % 3, h.forms()));
+                log_alloc_forms(cx, d as usize, &h);
             }
         }
     }
@@ -830,7 +895,8 @@ fn parse_step(cx: &mut Ctx, st: &mut State, d: usize, text: &[u8], via: u8) {
             if ok && !overlong {
                 st.mdl[d] = mdl_of(&h);
                 dirty_probe(cx, &before, &st.mdl[d].c);
-                cx.ev(true, format_args!("parse s{} {} {} -> {}", d, TYPE_NAMES[t], abr(text), h.text()));
+                cx.ev(true, format_args!("parse s{} {} {} -> {}", d, TYPE_NAMES[t], abr(text), h.forms()));
+                log_alloc_forms(cx, d as usize, &h);
             } else if ok {
                 st.slots[d] = saved.0;
                 st.mdl[d] = saved.1;
@@ -997,7 +1063,8 @@ fn ctor_step(cx: &mut Ctx, st: &mut State, d: usize, which: u8, bs: u32, b1: &[u
                     st.mdl[d].raw = None;
                 }
                 dirty_probe(cx, &before, &st.mdl[d].c);
-                cx.ev(true, format_args!("ctor s{} {} {} -> {}", d, TYPE_NAMES[t], name, h.text()));
+                cx.ev(true, format_args!("ctor s{} {} {} -> {}", d, TYPE_NAMES[t], name, h.forms()));
+                log_alloc_forms(cx, d as usize, &h);
                 unchecked_ctor_twin(cx, t, which, bs, b1, b2, len1, len2, &h, &dirty_before);
             }
         }
@@ -1140,7 +1207,8 @@ fn norm_in_place_step(cx: &mut Ctx, st: &mut State, d: usize) {
                 record_norm(cx, st, &before.c.2, &after.2, "normalize_in_place");
             }
             st.mdl[d] = Mdl { c: after.clone(), raw: if is_dual_type(t) { Some((after.1.clone(), after.2.clone())) } else { None } };
-            cx.ev(true, format_args!("normalize_in_place s{} -> {}", d, h2.text()));
+            cx.ev(true, format_args!("normalize_in_place s{} -> {}", d, h2.forms()));
+            log_alloc_forms(cx, d as usize, &h2);
         }
     }
 }
@@ -1448,7 +1516,8 @@ fn conv_step(cx: &mut Ctx, st: &mut State, s: usize, d: usize, edge: Edge) {
                 );
             }
             st.mdl[d] = new_mdl;
-            cx.ev(true, format_args!("convert s{}->s{} {} -> {}", s, d, edge.name(), h.text()));
+            cx.ev(true, format_args!("convert s{}->s{} {} -> {}", s, d, edge.name(), h.forms()));
+            log_alloc_forms(cx, d as usize, &h);
         }
     }
 }
@@ -1659,7 +1728,7 @@ fn gen_bh_just_over(rng: &mut Rng, cap: usize) -> Vec<u8> {
 }
 
 fn bs_text(rng: &mut Rng) -> String {
-    match rng.below(14) {
+    match rng.below(18) {
         0 => "".to_string(),
         1 => "0".to_string(),
         2 => format!("0{}", 3u64 << rng.below(31)),
@@ -1668,6 +1737,13 @@ fn bs_text(rng: &mut Rng) -> String {
         5 => "6442450944".to_string(), // 3*2^31
         6 => "99999999999999999999".to_string(),
         7 => format!("{}", rng.below(100)),
+        // values with arithmetic structure near the valid ones: powers of two
+        // and small multiples, 32-bit boundaries, one below a valid size
+        8 => format!("{}", 1u64 << rng.below(33)),
+        9 => format!("{}", (1u64 << rng.below(31)) * *rng.pick(&[5u64, 7, 9, 6, 12])),
+        10 => format!("{}", rng.next_u64() as u32),
+        11 => format!("{}", (3u64 << rng.below(31)) - 1),
+        12 => format!("{}", *rng.pick(&[2147483647u64, 2147483648, 2147483649, 4294967295, 4294967293, 3221225472, 3221225473, 1610612736, 1431655765, 2863311531])),
         _ => format!("{}", 3u64 << rng.below(31)),
     }
 }
